@@ -1,6 +1,11 @@
 package props
 
 import (
+	"time"
+	"sort"
+	"path/filepath"
+	"os"
+	"context"
 	"errors"
 	"fmt"
 	"io"
@@ -103,10 +108,12 @@ func c17Direct(c c17cfg) *Unit {
 		}
 		picks := make([]choice, c.threads)
 		fails := make([]bool, c.threads)
+		kinds := make([]int, c.threads) // 0 succeeded, 1 exited non-zero, 2 killed by the cancellation a failing sibling caused
 		for i := range letters {
 			picks[i] = all[i][vsched.Choose(len(all[i]), "chunking")]
 			if c.errorOnly {
-				fails[i] = vsched.Choose(2, "outcome") == 1
+				kinds[i] = vsched.Choose(3, "outcome")
+				fails[i] = kinds[i] != 0
 			}
 			x.Aux[fmt.Sprintf("in%d", i)] = fmt.Sprintf("%q fail=%v", picks[i].chunks, fails[i])
 		}
@@ -126,7 +133,9 @@ func c17Direct(c c17cfg) *Unit {
 					w.Write([]byte(ch))
 				}
 				var err error
-				if fails[i] {
+				if kinds[i] == 2 {
+					err = fmt.Errorf("task: command was cancelled: %w", context.Canceled)
+				} else if fails[i] {
 					err = errors.New("failed")
 				}
 				closer(err)
@@ -326,7 +335,7 @@ func c17Units(tier string) []*Unit {
 	if tier == "thorough" {
 		us = append(us, c17Direct(c17cfg{mode: "prefixed", threads: 3}))
 	}
-	us = append(us, c17Exec("group", false, tier), c17Exec("group", true, tier), c17Exec("prefixed", false, tier), c17ErrorOnlyIgnored(tier))
+	us = append(us, c17Exec("group", false, tier), c17Exec("group", true, tier), c17Exec("prefixed", false, tier), c17ErrorOnlyIgnored(tier), c17ExternalProcessUnit())
 	return us
 }
 
@@ -355,4 +364,78 @@ func c17ErrorOnlyIgnored(tier string) *Unit {
 		return out
 	}
 	return &Unit{Name: sc.Name, Sc: sc, Bound: 1, Prune: true, Check: check, Weight: 3}
+}
+
+// An external process that writes to stdout and stderr alternately: under output group and
+// prefixed the command's bytes keep their order (both streams of a command go to one writer, so
+// the process gets one pipe). Everything else in this check writes through shell builtins.
+func c17ExternalProcessUnit() *Unit {
+	name := "cli/external-process-alternating-streams"
+	return &Unit{Name: name, Weight: 2, Custom: func(u *Unit, dir string, deadline time.Time) *vlab.UnitResult {
+		res := &vlab.UnitResult{SigCounts: map[string]int{}, Extra: map[string]any{}}
+		n := 0
+		var samples []any
+		const rounds = 150
+		script := fmt.Sprintf("i=0; while [ $i -lt %d ]; do echo o$i; echo e$i >&2; i=$((i+1)); done", rounds)
+		var want []string
+		for i := 0; i < rounds; i++ {
+			want = append(want, fmt.Sprintf("o%d", i), fmt.Sprintf("e%d", i))
+		}
+		for _, mode := range []string{"group", "prefixed"} {
+			tf := "version: '3'\noutput: " + mode + "\ntasks:\n  t:\n    cmds:\n      - sh -c '" + script + "'\n"
+			os.RemoveAll(dir)
+			os.MkdirAll(dir, 0o755)
+			os.WriteFile(filepath.Join(dir, "Taskfile.yml"), []byte(tf), 0o644)
+			for rep := 0; rep < 3; rep++ {
+				so, se, rc := RunCLI(dir, nil, "", "--silent", "t")
+				n++
+				// group: the whole block goes to stdout; prefixed: each line goes to the stream it came
+				// from, so only the relative order within each stream can be read off from outside
+				var got []string
+				for _, l := range strings.Split(so, "\n") {
+					l = strings.TrimSpace(strings.TrimPrefix(strings.TrimSpace(l), "[t]"))
+					if l != "" {
+						got = append(got, l)
+					}
+				}
+				if len(samples) < 2 {
+					samples = append(samples, map[string]any{"mode": mode, "status": rc, "first_lines": firstN(strings.Join(got, ","), 60)})
+				}
+				bad := ""
+				switch {
+				case rc != 0:
+					bad = fmt.Sprintf("status %d %s", rc, firstN(se, 100))
+				case mode == "group" && strings.Join(got, ",") != strings.Join(want, ","):
+					bad = "the block does not hold the command's lines in the order they were written: " + firstN(strings.Join(got, ","), 120)
+				case mode == "prefixed":
+					var all []string
+					all = append(all, got...)
+					for _, l := range strings.Split(se, "\n") {
+						l = strings.TrimSpace(strings.TrimPrefix(strings.TrimSpace(l), "[t]"))
+						if l != "" {
+							all = append(all, l)
+						}
+					}
+					sort.Strings(all)
+					w2 := append([]string{}, want...)
+					sort.Strings(w2)
+					if strings.Join(all, ",") != strings.Join(w2, ",") {
+						bad = "lines lost or duplicated: " + firstN(strings.Join(all, ","), 120)
+					}
+				}
+				if bad != "" {
+					v := vlab.V("C17", "external_process_stream_order", mode, bad)
+					v.Scenario = name
+					v.Input = map[string]any{"taskfile": tf}
+					res.SigCounts[v.Sig]++
+					if res.SigCounts[v.Sig] == 1 {
+						res.Violations = append(res.Violations, v)
+					}
+				}
+			}
+		}
+		res.Extra["samples"] = samples
+		res.Stats = vlab.Stats{Scenario: name, Execs: n, States: n, Transitions: n, Outcomes: 1, Exhaustive: true}
+		return res
+	}}
 }
